@@ -1,9 +1,25 @@
 //go:build verif
 
 // External test file of package externalcmd: it may import internal/core and internal/hooks (which
-// import externalcmd). It implements the `hk` op of the C21 harness: two OVERLAPPING readers of one real
-// path go through the real hooks.OnRead; every hook command (helper process) records its arguments and
-// environment, which must be the values of THAT reader.
+// import externalcmd). It implements the `hk` op of the C21 harness: two OVERLAPPING hook invocations
+// (same or different kinds) on one real path go through the real hooks package / the path's real
+// record-segment callbacks; every started/stopped hook command (helper process) records its arguments
+// and its environment over the union of all hook variables, which must be the values of THAT invocation
+// (and unset for variables the invocation does not carry).
+//
+//	hk <name> <port> w=<groups> <mode> <kind1> <a1> <b1> <c1> <d1> <kind2> <a2> <b2> <c2> <d2>
+//
+// kind           a                b            c           d
+// read           QueryEscape(q)   reader type  reader id   q         hooks.OnRead       runOnRead / runOnUnread
+// avail[n]       QueryEscape(q)   source type  source id   q         hooks.OnAvailable  runOnAvailable / runOnUnavailable (n: Desc nil)
+// online[n]      QueryEscape(q)   source type  source id   q         hooks.OnOnline     runOnOnline / runOnOffline
+// demand         QueryEscape(q)   -            -           q         hooks.OnDemand     runOnDemand / runOnUnDemand
+// connect        -                conn type    conn id     -         hooks.OnConnect    runOnConnect / runOnDisconnect
+// seg            segment path     FormatFloat  duration ns -         path callbacks     runOnRecordSegmentCreate / …Complete
+//
+// mode `ru`: the "start" command is configured too (4 commands), `u`: only the "stop" command (2).
+// Order of events: start1, start2, stop1, stop2; each step waits for the helper's record, so a map
+// shared between invocations shows up as wrong values and not as a data-race crash.
 package externalcmd_test
 
 import (
@@ -11,6 +27,7 @@ import (
 	"net"
 	"net/url"
 	"os"
+	"strconv"
 	"strings"
 	"time"
 
@@ -47,7 +64,12 @@ func verifC21WaitLines(hout string, n int) []string {
 	}
 }
 
+type verifC21Inv struct{ kind, a, b, c, d string }
+
 func verifC21HookOp(f []string, helper, hout string, setenv func(keys string)) string {
+	if len(f) != 15 {
+		return "bad-op"
+	}
 	name := verifutil.UnHexS(f[1])
 	port := verifutil.UnHexS(f[2])
 	var groups []string
@@ -56,72 +78,135 @@ func verifC21HookOp(f []string, helper, hout string, setenv func(keys string)) s
 			groups = append(groups, verifutil.UnHexS(h))
 		}
 	}
-	mode := f[4]
-	type inv struct{ qesc, ty, id, raw string }
-	invs := []inv{
-		{verifutil.UnHexS(f[5]), verifutil.UnHexS(f[6]), verifutil.UnHexS(f[7]), verifutil.UnHexS(f[11])},
-		{verifutil.UnHexS(f[8]), verifutil.UnHexS(f[9]), verifutil.UnHexS(f[10]), verifutil.UnHexS(f[12])},
-	}
-	for _, iv := range invs {
-		if url.QueryEscape(iv.raw) != iv.qesc {
-			return "oracle-mismatch"
+	withStart := f[4] == "ru"
+	var invs []verifC21Inv
+	for i := 5; i < 15; i += 5 {
+		iv := verifC21Inv{f[i], verifutil.UnHexS(f[i+1]), verifutil.UnHexS(f[i+2]), verifutil.UnHexS(f[i+3]), verifutil.UnHexS(f[i+4])}
+		switch strings.TrimSuffix(iv.kind, "n") {
+		case "read", "avail", "online", "demand":
+			if url.QueryEscape(iv.d) != iv.a {
+				return "oracle-mismatch"
+			}
+		case "seg":
+			ns, err := strconv.ParseInt(iv.c, 10, 64)
+			if err != nil || strconv.FormatFloat(time.Duration(ns).Seconds(), 'f', -1, 64) != iv.b {
+				return "oracle-mismatch"
+			}
+		case "connect":
+		default:
+			return "bad-op"
 		}
+		invs = append(invs, iv)
 	}
 
 	keys := []string{"MTX_PATH", "RTSP_PATH", "RTSP_PORT"}
 	for i := range groups {
 		keys = append(keys, fmt.Sprintf("G%d", i+1))
 	}
-	keys = append(keys, "MTX_QUERY", "MTX_READER_TYPE", "MTX_READER_ID")
+	keys = append(keys, "MTX_QUERY", "MTX_READER_TYPE", "MTX_READER_ID", "MTX_SOURCE_TYPE", "MTX_SOURCE_ID",
+		"MTX_CONN_TYPE", "MTX_CONN_ID", "MTX_SEGMENT_PATH", "MTX_SEGMENT_DURATION")
 	hk := make([]string, len(keys))
 	for i, k := range keys {
 		hk[i] = verifutil.HexS(k)
 	}
 	setenv(strings.Join(hk, ","))
 
-	// the real path: matches[0] is the whole name, the capture groups follow
-	getEnv, destroy := core.VerifC21Path(name, append([]string{name}, groups...), net.JoinHostPort("", port))
-	defer destroy()
-
-	cmdstr := helper + " $MTX_QUERY ${MTX_READER_ID} $MTX_PATH-$G1"
-	pconf := &conf.Path{RunOnUnread: cmdstr}
-	if mode == "ru" {
-		pconf.RunOnRead = cmdstr
+	cmdstr := helper + ` $MTX_QUERY ${MTX_READER_ID} $MTX_PATH-$G1 "$MTX_SEGMENT_PATH" $MTX_SOURCE_ID$MTX_CONN_ID $MTX_SEGMENT_DURATION`
+	start := ""
+	if withStart {
+		start = cmdstr
 	}
-	pool := &externalcmd.Pool{}
-	pool.Initialize()
-
-	done := 0
-	var unread []func()
+	pconf := &conf.Path{
+		RecordPath:            os.TempDir() + "/verif-c21-rec/%path/%Y-%m-%d_%H-%M-%S-%f",
+		RecordFormat:          conf.RecordFormatFMP4,
+		RecordPartDuration:    conf.Duration(time.Second),
+		RecordMaxPartSize:     50 * 1024 * 1024,
+		RecordSegmentDuration: conf.Duration(time.Hour),
+	}
 	for _, iv := range invs {
-		// what a protocol server does when a reader is admitted
-		un := hooks.OnRead(hooks.OnReadParams{
-			Logger:          verifC21NoLog{},
-			ExternalCmdPool: pool,
-			Conf:            pconf,
-			ExternalCmdEnv:  getEnv(),
-			Reader:          defs.APIPathReader{Type: defs.APIPathReaderType(iv.ty), ID: iv.id},
-			Query:           iv.raw,
-		})
-		unread = append(unread, un)
-		if mode == "ru" {
-			done++
-			if verifC21WaitLines(hout, done) == nil {
-				return "hook-command-did-not-run"
-			}
+		switch strings.TrimSuffix(iv.kind, "n") {
+		case "read":
+			pconf.RunOnRead, pconf.RunOnUnread = start, cmdstr
+		case "avail":
+			pconf.RunOnAvailable, pconf.RunOnUnavailable = start, cmdstr
+		case "online":
+			pconf.RunOnOnline, pconf.RunOnOffline = start, cmdstr
+		case "demand":
+			pconf.RunOnDemand, pconf.RunOnUnDemand = start, cmdstr
+		case "seg":
+			pconf.RunOnRecordSegmentCreate, pconf.RunOnRecordSegmentComplete = start, cmdstr
 		}
 	}
-	// the first reader leaves while the second is still attached, then the second
-	var lines []string
-	for _, un := range unread {
-		un()
+
+	rtspAddress := net.JoinHostPort("", port)
+	// the real path: matches[0] is the whole name, the capture groups follow
+	pa := core.VerifC21Path(name, append([]string{name}, groups...), rtspAddress, pconf)
+	defer pa.Close()
+	pool := &externalcmd.Pool{}
+	pool.Initialize()
+	defer pool.Close()
+
+	done := 0
+	wait := func(expect bool) bool {
+		if !expect {
+			return true
+		}
 		done++
-		if lines = verifC21WaitLines(hout, done); lines == nil {
+		return verifC21WaitLines(hout, done) != nil
+	}
+
+	var stops []func()
+	for _, iv := range invs {
+		iv := iv
+		desc := &defs.APIPathSource{Type: defs.APIPathSourceType(iv.b), ID: iv.c}
+		if strings.HasSuffix(iv.kind, "n") {
+			desc = nil
+		}
+		switch strings.TrimSuffix(iv.kind, "n") {
+		case "read":
+			un := hooks.OnRead(hooks.OnReadParams{
+				Logger: verifC21NoLog{}, ExternalCmdPool: pool, Conf: pconf, ExternalCmdEnv: pa.Env(),
+				Reader: defs.APIPathReader{Type: defs.APIPathReaderType(iv.b), ID: iv.c}, Query: iv.d,
+			})
+			stops = append(stops, un)
+		case "avail":
+			un := hooks.OnAvailable(hooks.OnAvailableParams{
+				Logger: verifC21NoLog{}, ExternalCmdPool: pool, Conf: pconf, ExternalCmdEnv: pa.Env(), Desc: desc, Query: iv.d,
+			})
+			stops = append(stops, un)
+		case "online":
+			un := hooks.OnOnline(hooks.OnOnlineParams{
+				Logger: verifC21NoLog{}, ExternalCmdPool: pool, Conf: pconf, ExternalCmdEnv: pa.Env(), Desc: desc, Query: iv.d,
+			})
+			stops = append(stops, un)
+		case "demand":
+			un := hooks.OnDemand(hooks.OnDemandParams{
+				Logger: verifC21NoLog{}, ExternalCmdPool: pool, Conf: pconf, ExternalCmdEnv: pa.Env(), Query: iv.d,
+			})
+			stops = append(stops, func() { un("verif") })
+		case "connect":
+			un := hooks.OnConnect(hooks.OnConnectParams{
+				Logger: verifC21NoLog{}, ExternalCmdPool: pool, RunOnConnect: start, RunOnDisconnect: cmdstr,
+				RTSPAddress: rtspAddress, Desc: defs.APIPathReader{Type: defs.APIPathReaderType(iv.b), ID: iv.c},
+			})
+			stops = append(stops, un)
+		case "seg":
+			ns, _ := strconv.ParseInt(iv.c, 10, 64)
+			pa.SegmentCreate(iv.a)
+			stops = append(stops, func() { pa.SegmentComplete(iv.a, time.Duration(ns)) })
+		}
+		if !wait(withStart) {
 			return "hook-command-did-not-run"
 		}
 	}
-	pool.Close()
+	for _, un := range stops {
+		un()
+		if !wait(true) {
+			return "hook-command-did-not-run"
+		}
+	}
 
+	lines := verifC21WaitLines(hout, done)
 	var segs []string
 	for i := 0; i+1 < len(lines); i += 2 {
 		segs = append(segs, fmt.Sprintf("argv=%s env=%s", lines[i], lines[i+1]))
